@@ -499,6 +499,37 @@ def fuzz_inputs(rng):
         aub = np.zeros((0, n))
         bub = np.zeros(0)
         delta = float(10.0 ** rng.uniform(-2, 1))
+    if n >= 2 and rng.random() < 0.08:
+        # exact floating-point ties: integer data for which the first
+        # steepest-descent step reaches the trust-region boundary and two or
+        # more bounds simultaneously (tie-aware selection of active bounds)
+        tags.append("exact_ties")
+        base = [(2, 2, 1), (1, 2, 2), (2, 1, 2), (4, 4, 2), (4, 4, 7),
+                (6, 3, 2), (2, 3, 6), (1, 4, 8), (3, 4, 0), (3, 4, 12),
+                (1, 1, 0)][int(rng.integers(11))]
+        if n < 3:
+            base = [(3, 4), (4, 3), (1, 1), (2, 2)][int(rng.integers(4))]
+        gv = np.zeros(n)
+        gv[:len(base)] = base[:n]
+        sg = rng.choice([-1.0, 1.0], n)
+        mult = float(rng.choice([0.5, 1.0, 2.0]))
+        g = gv * sg * mult
+        nrm = float(np.linalg.norm(g))
+        alpha = float(rng.choice([0.5, 1.0, 2.0]))
+        delta = alpha * nrm
+        xl = np.full(n, -np.inf)
+        xu = np.full(n, np.inf)
+        step_end = -alpha * g          # where steepest descent meets the ball
+        for i in range(n):
+            if g[i] != 0 and rng.random() < 0.7:
+                if step_end[i] < 0:
+                    xl[i] = step_end[i]
+                else:
+                    xu[i] = step_end[i]
+        hd = rng.choice([0.0, 0.0, -1.0, 1.0, -2.0], n)
+        if rng.random() < 0.5:
+            hd[:] = 0.0
+        h = np.diag(hd)
     bubn = rng.standard_normal(m) * scale
     beq = rng.standard_normal(me) * scale
     const = float(rng.standard_normal()) if rng.random() < 0.35 else 0.0
